@@ -31,7 +31,10 @@ ParseFeat(line) == LET f == SplitStr(line, TAB) IN
 Read(lines) ==
     LET fa == FastaAt(lines)
         region == SplitStr(lines[2], " ")
-        featIdx == SelectSeq([i \in 1..fa - 1 |-> i], LAMBDA i : lines[i] # "" /\ ~StartsWith(lines[i], "#"))
+        (* a line that begins with one '#' is a comment - unless it has the nine tab-separated columns of a feature line: *)
+        (* the property admits every seqid free of white space, so "#7" is a seqid (only "##" starts a directive)          *)
+        featIdx == SelectSeq([i \in 1..fa - 1 |-> i], LAMBDA i : lines[i] # "" /\ ~StartsWith(lines[i], "##")
+                                                                  /\ (~StartsWith(lines[i], "#") \/ Len(SplitStr(lines[i], TAB)) = 9))
         seqLines == SelectSeq(SubSeq(lines, fa + 1, Len(lines)), LAMBDA x : x # "" /\ ~StartsWith(x, ">") /\ ~StartsWith(x, "##")) IN
     [name |-> region[2], rstart |-> ToNat(region[3]), rend |-> ToNat(region[4]),
      seq |-> Join(seqLines),
